@@ -162,3 +162,169 @@ def make_scene(rng, meshes=True, lopsided=True):
 
 def scene_block(lines, trailer):
     return ["model"] + lines + ["end"] + trailer + ["compile"]
+
+
+# ------------------------------------------------------------------------------------------ kernel generators
+def quat2mat(q):
+    w, x, y, z = q
+    return [1 - 2 * (y * y + z * z), 2 * (x * y - w * z), 2 * (x * z + w * y),
+            2 * (x * y + w * z), 1 - 2 * (x * x + z * z), 2 * (y * z - w * x),
+            2 * (x * z - w * y), 2 * (y * z + w * x), 1 - 2 * (x * x + y * y)]
+
+
+def rand_mat(rng):
+    r = rng.random()
+    if r < 0.3:
+        return [1.0, 0.0, 0.0, 0.0, 1.0, 0.0, 0.0, 0.0, 1.0]
+    if r < 0.4:   # axis permutation / reflection-free 90 degree rotations
+        return rng.choice(([0.0, -1.0, 0.0, 1.0, 0.0, 0.0, 0.0, 0.0, 1.0], [1.0, 0.0, 0.0, 0.0, 0.0, -1.0, 0.0, 1.0, 0.0],
+                           [0.0, 0.0, 1.0, 0.0, 1.0, 0.0, -1.0, 0.0, 0.0], [-1.0, 0.0, 0.0, 0.0, -1.0, 0.0, 0.0, 0.0, 1.0]))
+    return quat2mat(unit_quat(rng))
+
+
+def matvec(m, v):
+    return [m[0] * v[0] + m[1] * v[1] + m[2] * v[2], m[3] * v[0] + m[4] * v[1] + m[5] * v[2], m[6] * v[0] + m[7] * v[1] + m[8] * v[2]]
+
+
+def mattvec(m, v):
+    return [m[0] * v[0] + m[3] * v[1] + m[6] * v[2], m[1] * v[0] + m[4] * v[1] + m[7] * v[2], m[2] * v[0] + m[5] * v[1] + m[8] * v[2]]
+
+
+RAY_CLASSES = ("outside_towards", "outside_random", "inside", "grazing", "axis_parallel", "away", "tiny_dir", "zero_dir",
+               "on_surface", "huge", "special")
+
+
+def gen_ray_case(rng, gtype, cls=None):
+    """(size[3], pos[3], mat[9], pnt[3], vec[3], class) for one mju_rayGeom call."""
+    cls = cls or rng.choice(RAY_CLASSES)
+    size = [rng.uniform(0.05, 0.6) for _ in range(3)]
+    if gtype == PLANE:
+        size = [rng.choice((0.0, 0.0, -1.0, rng.uniform(0.2, 3))), rng.choice((0.0, 0.0, rng.uniform(0.2, 3))), 0.1]
+    if rng.random() < 0.1:
+        size[rng.randrange(3)] = rng.choice((0.0, 1e-9, 5.0))
+    pos = [rng.uniform(-2, 2) for _ in range(3)]
+    if rng.random() < 0.2:
+        pos = [0.0, 0.0, 0.0]
+    mat = rand_mat(rng)
+    ext = max(size) if gtype != PLANE else 1.0
+    # a target point in the geom frame: inside the bounding box of the shape
+    tgt = [rng.uniform(-1, 1) * s for s in (size if gtype != PLANE else [2.0, 2.0, 0.0])]
+    if gtype in (SPHERE,):
+        tgt = [x * size[0] * rng.uniform(0, 1) for x in unit_vec(rng)]
+    if gtype in (CAPSULE, CYLINDER):
+        tgt = [rng.uniform(-0.7, 0.7) * size[0], rng.uniform(-0.7, 0.7) * size[0], rng.uniform(-1, 1) * (size[1] + (size[0] if gtype == CAPSULE else 0))]
+    d = unit_vec(rng)
+    dist = rng.uniform(1.5, 6) * ext + 0.1
+    scale = rng.choice((1.0, 1.0, 1.0, rng.uniform(0.01, 100)))
+    if cls == "outside_towards":
+        lp = [tgt[i] - d[i] * dist for i in range(3)]
+        lv = [x * scale for x in d]
+    elif cls == "outside_random":
+        lp = [rng.uniform(-3, 3) * ext for _ in range(3)]
+        lv = [x * scale for x in unit_vec(rng)]
+    elif cls == "inside":
+        lp = [x * 0.9 for x in tgt]
+        lv = [x * scale for x in d]
+    elif cls == "grazing":
+        # aim at a point at distance ~ext from the centre line: close to tangent
+        e = unit_vec(rng)
+        off = rng.choice((1.0, 1.0 + 1e-9, 1.0 - 1e-9, 1.0 + 1e-15, 1.0 - 1e-15, 0.999, 1.001))
+        t = [e[i] * size[0] * off for i in range(3)]
+        # direction perpendicular to e
+        c = [d[1] * e[2] - d[2] * e[1], d[2] * e[0] - d[0] * e[2], d[0] * e[1] - d[1] * e[0]]
+        n = math.sqrt(sum(x * x for x in c)) or 1.0
+        c = [x / n for x in c]
+        lp = [t[i] - c[i] * dist for i in range(3)]
+        lv = [x * scale for x in c]
+    elif cls == "axis_parallel":
+        ax = rng.randrange(3)
+        lv = [0.0, 0.0, 0.0]
+        lv[ax] = rng.choice((1.0, -1.0)) * scale
+        lp = [tgt[i] * rng.choice((1.0, 1.0, 0.0, 1.2)) for i in range(3)]
+        lp[ax] = -lv[ax] / scale * dist * rng.choice((1, 1, -1))
+        if rng.random() < 0.3:   # slide exactly in a face plane
+            o = (ax + 1) % 3
+            lp[o] = size[o] * rng.choice((1.0, -1.0))
+    elif cls == "away":
+        lp = [tgt[i] - d[i] * dist for i in range(3)]
+        lv = [-x * scale for x in d]
+    elif cls == "tiny_dir":
+        lp = [tgt[i] - d[i] * dist for i in range(3)]
+        s = rng.choice((1e-7, 3.2e-8, 3.1e-8, 1e-9, 1e-14, 1e-15, 9e-16, 1e-200))
+        lv = [x * s for x in d]
+    elif cls == "zero_dir":
+        lp = [tgt[i] - d[i] * dist for i in range(3)]
+        lv = [0.0, 0.0, rng.choice((0.0, -0.0))]
+        if rng.random() < 0.5:
+            lv = [0.0, 0.0, 0.0]
+    elif cls == "on_surface":
+        # origin (numerically) on the surface of a sphere-like bound, random direction
+        e = unit_vec(rng)
+        lp = [e[i] * size[0] for i in range(3)]
+        if gtype == BOX:
+            lp = [rng.uniform(-1, 1) * size[0], rng.uniform(-1, 1) * size[1], size[2] * rng.choice((1, -1))]
+        if gtype == PLANE:
+            lp = [rng.uniform(-1, 1), rng.uniform(-1, 1), 0.0]
+        lv = [x * scale for x in unit_vec(rng)]
+    elif cls == "huge":
+        lp = [tgt[i] - d[i] * dist * 1e6 for i in range(3)]
+        lv = [x * rng.choice((1.0, 1e6, 1e-3)) for x in d]
+    else:
+        lp = [rng.choice(kernelval.SPECIALS) for _ in range(3)]
+        lv = [rng.choice(kernelval.SPECIALS) for _ in range(3)]
+    if gtype == PLANE and cls in ("outside_towards", "away") and rng.random() < 0.7:
+        # start above the plane
+        if lp[2] < 0:
+            lp[2] = -lp[2]
+            lv[2] = -lv[2]
+    pnt = [a + b for a, b in zip(matvec(mat, lp), pos)]
+    vec = matvec(mat, lv)
+    return size, pos, mat, pnt, vec, cls
+
+
+KERNEL_TYPE = {"ray_plane_nn": PLANE, "ray_plane": PLANE, "mju_rayGeom_plane": PLANE,
+               "ray_sphere_nn": SPHERE, "ray_sphere": SPHERE, "mju_rayGeom_sphere": SPHERE,
+               "ray_capsule_nn": CAPSULE, "mju_rayGeom_capsule": CAPSULE,
+               "ray_ellipsoid_nn": ELLIPSOID, "ray_ellipsoid": ELLIPSOID, "mju_rayGeom_ellipsoid": ELLIPSOID,
+               "ray_cylinder_nn": CYLINDER, "ray_cylinder": CYLINDER, "mju_rayGeom_cylinder": CYLINDER,
+               "ray_box_nn": BOX, "ray_box_all": BOX, "mju_rayGeom_box": BOX, "ray_map": BOX}
+KERNELS = ["ray_quad", "mju_rayGeom_badtype"] + sorted(KERNEL_TYPE)
+
+
+def kernel_gen(name):
+    gtype = KERNEL_TYPE[name]
+
+    def g(rng, inputs):
+        if rng.random() < 0.1:
+            return kernelval.default_gen(rng, inputs)
+        size, pos, mat, pnt, vec, _ = gen_ray_case(rng, gtype)
+        src = {"pos": pos, "mat": mat, "size": size, "pnt": pnt, "vec": vec}
+        vals = []
+        for nm, kind in inputs:
+            base, _, idx = nm.rpartition("_")
+            if nm == "dist_sqr":
+                vals.append(size[0] * size[0])
+            else:
+                vals.append(src[base][int(idx)])
+        return vals
+    return g
+
+
+def quad_gen(rng, inputs):
+    r = rng.random()
+    if r < 0.15:
+        return kernelval.default_gen(rng, inputs)
+    # roots chosen first so that every sign pattern / double roots / tiny a occur
+    a = rng.choice((1.0, rng.uniform(0.01, 100), 1e-15, 9.9e-16, 1.1e-15, 1e-12, 0.0, -1.0))
+    x0 = rng.choice((rng.uniform(-5, 5), 0.0, -0.0, 1e-12, -1e-12))
+    x1 = rng.choice((rng.uniform(-5, 5), x0, x0 + 1e-9, x0 + 1e-15 * abs(x0)))
+    if r < 0.5:
+        b = -a * (x0 + x1) / 2
+        c = a * x0 * x1
+    elif r < 0.75:   # near-zero discriminant
+        b = rng.uniform(-3, 3)
+        c = b * b / a * rng.choice((1.0, 1 + 1e-16, 1 - 1e-16, 1 + 1e-9, 1 - 1e-9)) if a else 0.0
+    else:
+        b = rng.uniform(-3, 3)
+        c = rng.uniform(-3, 3)
+    return [a, b, c]
